@@ -82,8 +82,12 @@ class Record:
 
 class KdfRecord(Record):
     def same(self, o):
-        return z_all([val_eq(self.alg, o.alg), val_eq(self.iterations, o.iterations), val_eq(self.salt, o.salt),
-                      val_eq(self.secret, o.secret)])
+        key = o.id
+        cache = self.__dict__.setdefault('_same', {})
+        if key not in cache:
+            cache[key] = z_all([val_eq(self.alg, o.alg), val_eq(self.iterations, o.iterations), val_eq(self.salt, o.salt),
+                                val_eq(self.secret, o.secret)])
+        return cache[key]
 
 
 class SealRecord(Record):
@@ -129,8 +133,11 @@ def m_rng_fill(I, path, args):
     n = len(dest.items)
     lst = dest.items if isinstance(dest, PyVec) else None
     terms = []
+    pick = I.env.get('rand_byte')
     for i in range(n):
-        t = I.ctx.fresh_int('rand', 0, 255)
+        t = pick(I, n, i) if pick is not None else None
+        if t is None:
+            t = I.ctx.fresh_int('rand', 0, 255)
         terms.append(t)
         if lst is not None:
             lst[i] = t
